@@ -29,6 +29,18 @@ def LinOp.caller : LinOp → Option Nat
   | .get t _ _ => some t
   | _ => none
 
+def LinOp.snapOf : LinOp → Option (K → Option V)
+  | .snap m => some m
+  | _ => none
+
+def LinOp.setOf : LinOp → Option (K → Option V)
+  | .set m => some m
+  | _ => none
+
+def Act.setOf : Act → Option (K → Option V)
+  | .setMap m => some m
+  | _ => none
+
 /-- the callers of `Get` that have been linearized, in linearization order -/
 def callers (lin : List (Nat × LinOp)) : List Nat := lin.filterMap (fun e => e.2.caller)
 
